@@ -7,6 +7,7 @@ import os
 from .. import classify, drive, hist, world
 from ..oracle import ignoreref, refhash, xmlread
 
+TECHNIQUE = 'runtime monitoring: reference-model oracle (on-disk walk + independent ignore matcher + independent XML reader) over every manifest written by generated create runs'
 LEVEL = "exploration"
 RULE = (
     "case = random tree (names with spaces / non-ASCII / XML-special / separators, empty files and directories, depth<=4) x "
